@@ -342,6 +342,35 @@ fn link(o: &Ontology, m: &str, tids: &[Vec<u32>], table: &[u32], out: &mut Vec<S
         back.reverse();
         both_ends.extend(back);
     }
+    // the borrowed iterator through the std adaptors (skip / step_by / nth then next / last)
+    let mut adaptor_fails: Vec<String> = vec![];
+    {
+        let all: Vec<(usize, usize, u32, usize)> = linkage.cluster().map(|c| (c.lhs(), c.rhs(), c.distance().to_bits(), c.len())).collect();
+        macro_rules! view {
+            () => {
+                |c| (c.lhs(), c.rhs(), c.distance().to_bits(), c.len())
+            };
+        }
+        for k in [0usize, 1, 2, 5] {
+            let sk: Vec<(usize, usize, u32, usize)> = linkage.cluster().skip(k).map(view!()).collect();
+            if sk != all.iter().skip(k).copied().collect::<Vec<_>>() {
+                adaptor_fails.push(format!("cluster().skip({k})"));
+            }
+            let st: Vec<(usize, usize, u32, usize)> = linkage.cluster().step_by(k + 1).map(view!()).collect();
+            if st != all.iter().step_by(k + 1).copied().collect::<Vec<_>>() {
+                adaptor_fails.push(format!("cluster().step_by({})", k + 1));
+            }
+            let mut i = linkage.cluster();
+            let a = i.nth(k).map(view!());
+            let b = i.next().map(view!());
+            if a != all.get(k).copied() || b != all.get(k + 1).copied() {
+                adaptor_fails.push(format!("cluster().nth({k}) then next()"));
+            }
+        }
+        if linkage.cluster().last().map(view!()) != all.last().copied() || linkage.cluster().count() != all.len() {
+            adaptor_fails.push("cluster().last() / count()".to_string());
+        }
+    }
     let idx = linkage.indicies();
     // the OWNED iterator: forward for the first half of the runs, from both ends for the other half
     let cl3: Vec<(usize, usize, u32, usize)> = if (n + table.len()) % 2 == 0 {
@@ -383,6 +412,7 @@ fn link(o: &Ontology, m: &str, tids: &[Vec<u32>], table: &[u32], out: &mut Vec<S
     if as_bits != cl2 || as_bits != cl3 {
         fails.push("iterator-variants-disagree".to_string());
     }
+    fails.extend(adaptor_fails.iter().map(|f| f.replace(' ', "_")));
     if lens.iter().any(|l| *l != cl.len()) {
         fails.push(format!("len()-of-the-iterators {lens:?} merges={}", cl.len()));
     }
